@@ -175,6 +175,26 @@ def fuzz_campaign(seed, runs, jobs=16):
         shutil.rmtree(tmp, ignore_errors=True)
 
 
+def chain_shard(b, p):
+    """deterministic chains (ir.chain_programs): outputs of one operation fed to the next together with that operation's operands"""
+    stats = core.Stats()
+    found = {}
+    for prog in ir.chain_programs(b, p):
+        chk = Checker()
+        key = "chain." + "-".join(s_[1] for s_ in prog["stmts"] if s_[0] == "op")
+        try:
+            m = ir.run_program(prog, after=chk)
+            if m.raised is None:
+                bad = r1cs.evaluate(m.ns.rec.cons, m.ns.rec.vals, m.ns.rec.P)
+                if bad:
+                    found.setdefault(key, {"case": prog, "key": key, "msg": "constraint #%d violated at the end of the chain %s" % (bad[0], key)})
+        except core.Violation as vi:
+            found.setdefault(key, {"case": prog, "msg": vi.msg, "key": key})
+        stats.case(prog, True, ("chain",), sample_cap=1)
+    stats.violations = list(found.values())
+    return stats
+
+
 def failure_shard(b, p):
     """histories with a failure in them: a call the library refuses (division by zero, failed assertion, unsupported operand,
     width / index out of range, bad guard ...) is caught by the program, which then goes on with valid operations; the run
@@ -288,6 +308,7 @@ def run(ctx):
     total.extra["cell_sweep"] = {"cells": len(cells), "modes": MODES, "grids": [list(g) for g in grids]}
     total.merge_json(core.run_shards_optimised("harness.checks.c01", "shard", [dict(seed=ctx.seed * 1000 + 800 + i, n_examples=60) for i in range(4)]).to_json())
     total.merge_json(core.run_shards("harness.checks.c01", "failure_shard", [dict(b=b_, p=p_) for b_, p_ in ((3, "bn128"), (8, "bls12-381"))]).to_json())
+    total.merge_json(core.run_shards("harness.checks.c01", "chain_shard", [dict(b=8, p="bn128"), dict(b=16, p="bls12-381")]).to_json())
     total.merge_json(core.run_shards("harness.checks.c01", "examples_shard", [dict(), dict()][:1]).to_json())
     # scale: completeness of secret-index reads and writes on arrays of 31 ... 257 elements and 65x2 / 2x65 matrices (the histories
     # of C15's long-array part; here only "the recorded witness satisfies every emitted constraint" is at stake)
